@@ -24,7 +24,7 @@ SLACK = 0            # allowance of the single-threaded decoders beyond max(limi
 SLACK_INDEX = 16384  # Index / file info decoders: usage counts the Indexes only; coder structures (8 KiB buffer) come on top
 SLACK_MT = 16384     # threaded decoder: thread table, coder structures, index hash (not in its own accounting)
 VARIANTS_BROKEN = {"set_accepts_small": "MCMemLimitSt.cfg", "usage_not_updated": "MCMemLimitSt.cfg",
-                   "compare_after_alloc": "MCMemLimitSt.cfg", "threading_test_uses_stop": "MCMemLimitMt.cfg",
+                   "compare_after_alloc": "MCMemLimitSt.cfg", "limit_checked_once": "MCMemLimitSt.cfg", "threading_test_uses_stop": "MCMemLimitMt.cfg",
                    "can_start_uses_stop": "MCMemLimitMt.cfg", "outq_cache_test_uses_in_use": "MCMemLimitMt.cfg"}
 FINDING = {"mt_usage_excludes_need": ("memlimit:stream_decoder_mt:memusage-not-needed-amount",
                                       "after LZMA_MEMLIMIT_ERROR from lzma_stream_decoder_mt, lzma_memusage() reports the memory "
@@ -167,6 +167,21 @@ def st_runs(ctx, lz, coders, D, kind, label, data):
         return u - 1 if state["n"] == 1 else None
     r = D.LimitedRun(kind, data, needs[0] - 1 if needs[0] > 1 else 1, chunk=chunk).run(policy=raise_too_little)
     out.append((label + "|raise-to-M-1", [dict(e="Reset")] + fin(r, ref, True)))
+    # calling again without raising the limit, or after a rejected lzma_memlimit_set, stops at the same point again;
+    # raising to the reported amount afterwards still resumes
+    for nm, script in (("again-again", ["again", "again", None]), ("rejected-again", [("try", -1), "again", None]),
+                       ("again-then-raise", ["again", ("try", -1), "raise"])):
+        st = {"i": 0}
+        def scripted(run, u, script=script, st=st):
+            a = script[st["i"]] if st["i"] < len(script) else "raise"
+            st["i"] += 1
+            if a == "raise":
+                return u
+            if isinstance(a, tuple):
+                return ("try", max(1, u + a[1]))
+            return a
+        r = D.LimitedRun(kind, data, max(1, needs[0] - 1), chunk=chunk).run(policy=scripted)
+        out.append((label + "|" + nm, [dict(e="Reset")] + fin(r, ref, r.ret == lz.MEMLIMIT_ERROR)))
     # raise generously, then try to lower the limit below / to the current usage in the middle
     def raise_more(run, u):
         return u + ctx.rng.choice([1, 4096, 1 << 20])
@@ -400,6 +415,58 @@ def mt_run(lz, D, S, T, su, threads, lower=0, chunk=None, out_chunk=1 << 16):
                 same=bool(same and r.final_live == 0))
 
 
+def mt_direct_setup(ctx, lz, coders, D):
+    """A file that forces the threaded decoder into direct mode: Block Header without sizes (single-threaded
+    encoder) declaring an 8 MiB dictionary."""
+    data = coders.rand_data(ctx.rng, 60000, "text")
+    px, real = D.patch_xz_dict(coders.encode_xz(data, preset=0), 8 << 20)
+    F = int(lz.L().lzma_raw_decoder_memusage(coders.lzma2_filters(0, dict_size=real)))
+    ref = D.LimitedRun("stream_mt", px, D.UNL, threads=2, tlimit=D.UNL).run()
+    return dict(data=data, file=px, F=F, blocks=[[F, 1, 1, False]], ref=ref, outbufs=set())
+
+
+def mt_history(lz, D, steps):
+    """One lzma_stream re-initialised with lzma_stream_decoder_mt() for each step (what xz does for every further
+    file on its command line).  steps: list of (setup, T, S, threads).  One MtRun event per step; for the steps after
+    the first, `peak` is the largest amount held at the RETURN of any lzma_code() call of that step (memory kept
+    from the previous file may only be released when the first Block of the new file is set up)."""
+    al = D.SizeAlloc()
+    c = lz.Coder(al)
+    evs = []
+    for n, (su, T, S, threads) in enumerate(steps):
+        mt = lz.Mt(); mt.threads = threads; mt.flags = lz.CONCATENATED
+        mt.memlimit_threading = lz.UINT64_MAX if T >= D.UNL else T
+        mt.memlimit_stop = lz.UINT64_MAX if S >= D.UNL else S
+        c.keep = mt
+        if c.init("lzma_stream_decoder_mt", C.byref(mt)) != lz.OK:
+            raise MachineryError("lzma_stream_decoder_mt re-initialisation failed")
+        al.take_peak(); mark = len(al.sizes)
+        data = su["file"]; s = c.strm
+        ib = lz.Buf(len(data), data); ob = lz.Buf(1 << 16)
+        s.next_in = ib.addr; s.avail_in = len(data)
+        out = bytearray(); held = 0; r = lz.OK; usage = 0
+        for _ in range(100000):
+            s.next_out = ob.addr; s.avail_out = 1 << 16
+            r = c.code_raw(lz.FINISH)
+            got = (1 << 16) - s.avail_out
+            out += ob.data(got)
+            held = max(held, al.cur)
+            usage = lz.L().lzma_memusage(C.byref(s))
+            if r != lz.OK:
+                break
+        pk = al.take_peak()
+        ref = su["ref"]
+        same = (r == lz.MEMLIMIT_ERROR and bytes(ref.out).startswith(bytes(out))) or \
+            (lz.retname(r) == ref.result()[0] and bytes(out) == bytes(ref.out))
+        evs.append(dict(e="MtRun", T=D.cap(max(1, T)), S=D.cap(max(1, S)), lower=0, setret="none", threads=threads, blocks=su["blocks"],
+                        ret=lz.retname(r), peak=int(pk if n == 0 else held), threaded=any(x in su["outbufs"] for x in al.sizes[mark:]),
+                        usage=D.cap(usage), same=bool(same), step=n))
+    c.end()
+    if al.cur != 0:
+        evs[-1]["same"] = False
+    return evs
+
+
 def run(ctx):
     if ctx.replay:
         obj = json.load(open(ctx.replay)).get("replay") or {}
@@ -527,6 +594,20 @@ def run(ctx):
     for e in hev:
         ctx.case(key=("mth", json.dumps(e)))
     ctx.extra["mt_hetero_runs"] = len(hev)
+    # histories on one handle: direct-mode file <-> threaded file with other limits
+    sd = mt_direct_setup(ctx, lz, coders, D)
+    lowT = 4 << 20
+    hist = [[(sd, D.UNL, D.UNL, 2), (su, lowT, lowT, 3)], [(su, D.UNL, D.UNL, 3), (sd, D.UNL, sd["F"], 2), (su, lowT, lowT, 2)],
+            [(sd, D.UNL, D.UNL, 2), (sd, lowT, sd["F"] + 4096, 2), (su, 2 * (F + B) + 1000, lowT, 4)],
+            [(sh, needs[-1] + 65536, D.UNL, 4), (su, lowT, lowT, 3), (sd, lowT, D.UNL, 2)]]
+    if not quick:
+        hist += [[(sd, D.UNL, D.UNL, 3), (su, F + B + 1000, D.UNL, 4), (sd, D.UNL, D.UNL, 1), (sh, needs[-1] + 65536, D.UNL, 2)]]
+    for k, steps in enumerate(hist):
+        hv = mt_history(lz, D, steps)
+        hists.append(("stream_decoder_mt|history-%d" % k, [dict(e="Reset")] + hv))
+        for e in hv:
+            ctx.case(key=("mthist", json.dumps(e)))
+    ctx.extra["mt_histories"] = len(hist)
     mt_over = max((e["peak"] - min(e["S"], max(e["T"], F)) for e in mtev if e["ret"] == "STREAM_END" and not e["lower"]), default=0)
     ctx.extra["mt_allowance_bytes"] = SLACK_MT
     ctx.extra["mt_max_peak_minus_bound"] = mt_over
